@@ -544,9 +544,6 @@ func (f *frame) doAppend(cm *ssa.CallCommon, pos token.Pos, st *State, name stri
 		c.assume(st, fmt.Sprintf("(forall ((i Int)) (! (=> (and (<= 0 i) (< i (slen %s))) (= (select %s (selem %s i)) (select %s (selem %s i)))) :pattern ((selem %s i))))", s.T, st.Heap(h), res, before[h], s.T, s.T))
 		c.assume(st, fmt.Sprintf("(=> (>= %s 1) (= (select %s (selem %s (slen %s))) (select %s (selem %s 0))))", n, st.Heap(h), res, s.T, before[h], t.T))
 	}
-	// A consequence of the selem axiom, stated so that E-matching has the term: an append in place keeps every element
-	// location of the operand (without it, invariants triggered on elements of the old slice never fire on the new one).
-	c.assume(st, fmt.Sprintf("(forall ((i Int)) (! (=> %s (= (selem %s i) (selem %s i))) :pattern ((selem %s i))))", inplace, res, s.T, res))
 	// the cells of the result named through the operand: in place they are the operand's cells (same array and
 	// offset), otherwise cells of the new array; gives quantified facts about s[i] a term to match on r[i]
 	c.assume(st, fmt.Sprintf("(forall ((i Int)) (! (= (selem %s i) (ite %s (selem %s i) (elem %s i))) :pattern ((selem %s i))))", res, inplace, s.T, id, res))
